@@ -6,15 +6,15 @@ after every history step — and of the glob matcher with ircutils.hostmaskPatte
 property statement evaluated on the implementation: every lookup answers what a cache-free
 recomputation on a copy of the records answers, a recognised id really matches (pattern or live
 login from the exact hostmask) and nobody else does, no literal overlap after an accepted setUser."""
-import copy, json, os, sys
+import contextlib, copy, io, json, os, sys
 from vlib import wire, rng, leanbuild, verdict, bot
 from vlib.verdict import Case
 from c03 import o_glob, o_lower, swapcase_irc
 
 PROPERTY = 'C04'
 MANIFEST = {
- 'level_text': 'Lean 4 theorems about a model of ircdb.UsersDictionary (user records, hostmask sets, logins with timeout, _hostmaskCache and _nameCache with the CacheDict clear-when-full behaviour), kernel-checked: for every history of register / hostmask add / remove / identify / unidentify / changename / set secure / users.conf load / delUser / clock ticks / lookups, every lookup answers exactly what the cache-free, effect-free recomputation on the current records answers (invariant: a cached hostmask is matched by no other user, reverse entries are complete); an answer id is a user one of whose patterns globs the hostmask or who has an unexpired login from exactly that hostmask, and no second user matches; a secure account needs a pattern; an accepted setUser leaves no literal overlap between the masks of two users; the glob matcher equals a declarative match relation and is invariant under IRC case folding. The table-like constants (cache size, unWildcard set, minimum, the hostmask regexp shape, rfc1459 table) are re-extracted from /repo on every run; the model is tied to src/ircdb.py / src/ircutils.py by a differential run that compares outcomes, records and both caches, and evaluates the property statement on the implementation.',
- 'level_note': 'Trusted: Lean kernel; axioms propext/Classical.choice/Quot.sound only; the extractors; the correspondence harness. Modelled and proved: getUserId (both paths, cache hit re-validation, duplicate removal incl. the removeHostmask(True) quirk), getUser, setUser, delUser, newUser, invalidateCache, checkHostmask, addAuth, clearAuth, addHostmask, removeHostmask, the plugin call sequences as operations, glob matcher, isUserHostmask. Not modelled: lazy physical removal of expired logins (unobservable: every read filters by liveness; harness compares live logins); password checking (plugin level); re.I / str.lower() outside ASCII (generated names/hostmasks stay in the modelled alphabet); user names that look like hostmasks are outside the history theorem (inside the correspondence). KNOWN FINDING: two users may own wildcard masks with a common instance (the overlap test is literal); proved as a witness history, replayed every run.',
+ 'level_text': 'Lean 4 theorems about a model of ircdb.UsersDictionary (user records, hostmask sets, logins with timeout, _hostmaskCache and _nameCache with the CacheDict clear-when-full behaviour), kernel-checked: for every history of register / hostmask add / remove / identify / unidentify / changename / set secure / users.conf load / delUser / clock ticks / lookups, every lookup answers exactly what the cache-free, effect-free recomputation on the current records answers (invariant: a cached hostmask is matched by no other user, reverse entries are complete); an answer id is a user one of whose patterns globs the hostmask or who has an unexpired login from exactly that hostmask, and no second user matches; a secure account needs a pattern; an accepted setUser leaves no literal overlap between the masks of two users; the glob matcher equals a declarative match relation and is invariant under IRC case folding. The register / identify / unidentify / hostmask add / hostmask remove / set secure / whoami commands of the User plugin (converters and guards, password test as a parameter) are modelled on top: no dictionary operation but identify creates a login, the plugin runs identify only after the password test of the account for the exact sender, hence every login entry in every reachable state is backed by an identify WITH THE PASSWORD from that exact hostmask (ghost log), and a recognised sender matches a registered mask or identified with the password within the timeout. The table-like constants (cache size, unWildcard set, minimum, the hostmask regexp shape, rfc1459 table) are re-extracted from /repo on every run; the model is tied to src/ircdb.py / src/ircutils.py by a differential run that compares outcomes, records and both caches, and evaluates the property statement on the implementation.',
+ 'level_note': 'Trusted: Lean kernel; axioms propext/Classical.choice/Quot.sound only; the extractors; the correspondence harness. Modelled and proved: getUserId (both paths, cache hit re-validation, duplicate removal incl. the removeHostmask(True) quirk), getUser, setUser, delUser, newUser, invalidateCache, checkHostmask, addAuth, clearAuth, addHostmask, removeHostmask, the plugin call sequences as operations, glob matcher, isUserHostmask. Not modelled: lazy physical removal of expired logins (unobservable: every read filters by liveness; harness compares live logins); the salted password hash (a parameter pwOk of the plugin model; the driver instantiates it with equality of the secrets, the harness uses the real salted hashes of the bot); the per-message lookups of the sender that the bot does of the sender outside the command (checkIgnored, command capabilities, reply options: cache effects only unless the sender matches two accounts, which the plugin stream avoids); the nick fallback of the otherUser converter; `hostmask remove all`; re.I / str.lower() outside ASCII (generated names/hostmasks stay in the modelled alphabet); user names that look like hostmasks are outside the history theorem (inside the correspondence). KNOWN FINDING: two users may own wildcard masks with a common instance (the overlap test is literal); proved as a witness history, replayed every run.',
  'technique': 'Lean 4 proof (state-machine invariant over operation histories, refinement to the cache-free lookup) + constant extraction + differential correspondence incl. cache contents',
  'design_ref': 'DESIGN.md §6 C04',
 }
@@ -22,6 +22,9 @@ THEOREMS = ['C04.cache_transparent', 'C04.getUserId_sound', 'C04.getUserId_uniqu
             'C04.setUser_no_literal_overlap', 'C04.semantic_overlap_accepted', 'C04.inv_step', 'C04.inv_run',
             'C04.reachable_step', 'C04.getUserId_agrees', 'C04.revOK_reachable', 'C04.checkCapability_cache_free',
             'C04.glob_iff_matches', 'C04.glob_case', 'C04.patCharMatch_eq_cls',
+            # the User plugin: logins are backed by the account's password
+            'C04.step_auth', 'C04.guard_identify', 'C04.pstep_pinv', 'C04.auth_backed_by_password',
+            'C04.recognised_by_mask_or_password', 'C04.addAuth_secure',
             # obligation on the extracted case table
             'C04.rfc1459_table_classes', 'C03.rfc1459_table_ok']
 TRUSTED = ['Lean 4.33.0 kernel; axioms ⊆ {propext, Classical.choice, Quot.sound}',
@@ -32,6 +35,10 @@ TRUSTED = ['Lean 4.33.0 kernel; axioms ⊆ {propext, Classical.choice, Quot.soun
 RULE = ('history = reset(timeout), then 5–60 operations over ≤5 accounts drawn from: register, hostmask add/remove, identify, unidentify, '
         'changename, set secure, users.conf-style load, delUser, tick(dt around the timeout), lookup (hostmasks and names, repeated to warm '
         'the caches), each followed by the enumeration order of changed hostmask sets and periodically by a dump (records + both caches). '
+        'A plugin stream drives the REAL User plugin on the live bot (register, identify with right/wrong passwords from recognised/'
+        'unrecognised/secure senders, unidentify, hostmask add/remove, set secure, whoami, ticks): reply kind, records and the ghost log of '
+        'password-backed identifications are compared with the model after every command; senders that match two accounts are not used '
+        '(the bot\'s own per-message lookups then delete masks; covered by the dictionary stream). '
         'Non-trivial = the history contains a cache hit after an edit, a duplicate, an expiry, a rollback or a rejection; distinct = distinct '
         'operation list. Streams: hist, hostile (hostmask-like names, line breaks, odd masks), overflow (>1000 distinct lookups), '
         'glob (pattern/hostmask pairs), corpus/finding witnesses first.')
@@ -45,12 +52,29 @@ class Clock(object):
 
 class Impl(object):
     def __init__(self):
-        self.b = bot.full(plugins=())
+        self.b = bot.full()                      # Owner, Misc, User, … : the plugin stream drives the real User plugin
+        bot.register_welcome(self.b)
         self.ircdb = self.b.ircdb; self.conf = self.b.conf; self.ircutils = self.b.ircutils
         self.clock = Clock()
         self.ircdb.time = self.clock
-        self.U = None
+        # the bot's own dictionary (checkCapability's default argument and the plugins are bound to it)
+        self.U = self.ircdb.users
+        self.U.filename = None                   # no users.conf writes
         self.timeout = 0
+        # observe (not alter) lookups: which strings made getUserId raise for two matching accounts
+        self.dup_lookups = []
+        orig = self.ircdb.UsersDictionary.getUserId
+        impl = self
+        def watched(ud, s):
+            try:
+                return orig(ud, s)
+            except impl.ircdb.DuplicateHostmask:
+                impl.dup_lookups.append(s); raise
+            except KeyError as e:
+                if e.args and isinstance(e.args[0], impl.ircutils.IrcString):
+                    impl.dup_lookups.append(s)
+                raise
+        self.ircdb.UsersDictionary.getUserId = watched
 
     def err(self, e):
         if isinstance(e, AssertionError): return 'err\tassertion'
@@ -59,9 +83,15 @@ class Impl(object):
         return 'err\t' + type(e).__name__
 
     def reset(self, timeout):
-        self.U = self.ircdb.UsersDictionary()
-        self.ircdb.users = self.U                 # IrcUser.clearAuth / addNick use the module global
+        U = self.U
+        U.users.clear(); U.nextId = 0; U._nameCache.clear(); U._hostmaskCache.clear()
+        self.ircdb.users = U
         self.conf.supybot.databases.users.timeoutIdentification.setValue(timeout)
+        with contextlib.redirect_stdout(io.StringIO()):
+            self.conf.supybot.capabilities.setValue(list(self.conf.supybot.capabilities._default))
+        self.conf.supybot.capabilities.registeredUsers.setValue([])
+        self.conf.supybot.capabilities.default.setValue(True)
+        self.ircdb.channels.channels.clear()
         self.timeout = timeout
         self.clock.now = 0
 
@@ -408,6 +438,10 @@ def run_history(impl, ops, kind, oracle=True):
         elif k in ('register', 'addhost', 'load', 'rmhost', 'identify', 'unidentify', 'rename', 'secure') and out == 'ok':
             looked = set()
             tags.add(k)
+            if oracle and k == 'identify':
+                u = impl.U.users.get(op[1])
+                if u is not None and u.secure and clean(op[2]) and not any(o_glob(str(m), op[2]) for m in u.hostmasks if clean(str(m))):
+                    fail('op %d: the secure account %d accepted a login from %r, which matches none of its registered masks' % (idx, op[1], op[2]))
             if oracle and k in ('register', 'addhost', 'load'):
                 uid = op[1] if k != 'register' else impl.U.nextId
                 lo = literal_overlap(impl, uid)
@@ -432,6 +466,190 @@ def run_history(impl, ops, kind, oracle=True):
         c.finding = finding
     return c, lines
 
+
+# ---- plugin stream: the real User plugin on the live bot -----------------------------------
+P_PREF = ['na!ua@home.alice.example', 'nm!um@dyn7.isp.example', 'nb!ub@b.example', 'nc!uc@dyn9.isp.example', 'nd!ud@d.example']
+P_NAMES = ['alice', 'bobby', 'carol', 'Alice']
+P_MASKS = ['*!*@*.isp.example', '*!*@home.alice.example', 'n?!*@*.example', 'nm!*@*.example', '*!ua@*', 'nb!ub@b.example',
+           '*!*@dyn?.isp.example', 'NM!UM@DYN7.ISP.EXAMPLE', 'n{!*@*.example', '*!*@*', 'nq!*@*']
+P_PWS = ['pw1', 'pw2', 'wrong']
+
+def classify(texts):
+    t = ' '.join(texts)
+    if not texts: return 'silent'
+    if t.startswith('The operation succeeded') or t.startswith('Secure flag set to'): return 'success'
+    if "doesn't match or your password is wrong" in t: return 'incorrectAuth'
+    if 'You must be registered to use this command' in t: return 'notRegistered'
+    if "in my user database" in t: return 'noUser'
+    if 'Your secure flag is true' in t: return 'secureError'
+    if 'That name is already assigned' in t: return 'nameTaken'
+    if 'Your hostmask is already registered to' in t or 'That hostmask is already registered' in t: return 'hostmaskTaken'
+    if 'Hostmask must contain at least' in t: return 'invalidMask'
+    if 'is not a valid' in t: return 'invalid'
+    if 'There was no such hostmask' in t: return 'noSuchHostmask'
+    if 'An error has occurred and has been logged' in t: return 'generic'
+    if t.startswith('(\x02user '): return 'usage'
+    if "I don't recognize you" in t: return 'stranger'
+    if t.startswith('Error:'): return 'other-error\t' + t[:60]
+    return 'iam\t' + wire.enc(t)
+
+def p_text(c):
+    k = c[0]
+    if k == 'p_register': return 'user register %s %s' % (c[2], c[3])
+    if k == 'p_identify': return 'user identify %s %s' % (c[2], c[3])
+    if k == 'p_unidentify': return 'user unidentify'
+    if k == 'p_hostadd': return 'user hostmask add %s' % (c[3] if c[2] is None else '%s %s %s' % (c[2], c[3], c[4]))
+    if k == 'p_hostrm': return 'user hostmask remove %s' % (c[3] if c[2] is None else '%s %s %s' % (c[2], c[3], c[4]))
+    if k == 'p_secure': return 'user set secure %s %s' % (c[2], 'True' if c[3] else 'False')
+    if k == 'p_whoami': return 'user whoami'
+    raise ValueError(c)
+
+def p_wire(c):
+    k = c[0]; E = wire.enc
+    if k == 'reset': return 'reset\t%d' % c[1]
+    if k == 'p_tick': return 'p_tick\t%d' % c[1]
+    if k in ('p_register', 'p_identify'): return '%s\t%s\t%s\t%s' % (k, E(c[1]), E(c[2]), E(c[3]))
+    if k in ('p_unidentify', 'p_whoami'): return '%s\t%s' % (k, E(c[1]))
+    if k in ('p_hostadd', 'p_hostrm'): return '%s\t%s\t%s\t%s\t%s' % (k, E(c[1]), wire.enc_opt(c[2]), E(c[3]), E(c[4]))
+    if k == 'p_secure': return 'p_secure\t%s\t%s\t%d' % (E(c[1]), E(c[2]), c[3])
+    if k == 'dump': return 'dump'
+    raise ValueError(c)
+
+def gen_pcmd(r, impl):
+    """one command, chosen with a look at the accounts that exist (names given to `hostmask add/remove <name> …`
+    are existing account names, as the command's argument parsing depends on it)"""
+    names = [u.name for u in impl.U.users.values() if u.name] or ['alice']
+    p = r.choice(P_PREF)
+    x = r.random()
+    if x < 0.14 or not impl.U.users:
+        return ('p_register', p, r.choice(P_NAMES) if r.random() < 0.9 else 'x!y@z', r.choice(P_PWS[:2]))
+    if x < 0.40:
+        return ('p_identify', p, r.choice(names) if r.random() < 0.9 else r.choice(P_NAMES + ['nosuch', 'a!b@c']), r.choice(P_PWS))
+    if x < 0.46:
+        return ('p_unidentify', p)
+    if x < 0.62:
+        if r.random() < 0.6:
+            return ('p_hostadd', p, r.choice(names), r.choice(P_MASKS + P_PREF), r.choice(P_PWS))
+        return ('p_hostadd', p, None, r.choice(P_MASKS + P_PREF), '')
+    if x < 0.76:
+        u = r.choice(list(impl.U.users.values()))
+        have = [str(m) for m in u.hostmasks]
+        if r.random() < 0.6:
+            return ('p_hostrm', p, u.name or 'alice', r.choice(have) if have and r.random() < 0.8 else r.choice(P_MASKS), r.choice(P_PWS))
+        return ('p_hostrm', p, None, r.choice(have) if have and r.random() < 0.8 else r.choice(P_MASKS + P_PREF), '')
+    if x < 0.82:
+        return ('p_secure', p, r.choice(P_PWS), r.randint(0, 1))
+    if x < 0.90:
+        return ('p_tick', r.choice([1, 5, 9, 10, 11, 30, 60, 61]))
+    return ('p_whoami', p)
+
+# the two scenarios behind the seeded changes C04-m4 / C04-m2, always run first
+P_CORPUS = [
+ [('reset', 0), ('p_register', P_PREF[0], 'alice', 'pw1'), ('p_hostadd', P_PREF[0], 'alice', '*!*@*.isp.example', 'pw1'),
+  ('p_whoami', P_PREF[1]), ('p_identify', P_PREF[1], 'alice', 'wrong'), ('p_hostrm', P_PREF[0], 'alice', '*!*@*.isp.example', 'pw1'),
+  ('p_whoami', P_PREF[1])],
+ [('reset', 60), ('p_register', P_PREF[0], 'alice', 'pw1'), ('p_hostadd', P_PREF[0], 'alice', '*!*@*.isp.example', 'pw1'),
+  ('p_secure', P_PREF[0], 'pw1', 1), ('p_identify', P_PREF[1], 'alice', 'pw1'), ('p_tick', 5),
+  ('p_hostrm', P_PREF[0], 'alice', '*!*@*.isp.example', 'pw1'), ('p_identify', P_PREF[1], 'alice', 'pw1'), ('p_tick', 70),
+  ('p_whoami', P_PREF[1])],
+]
+
+def n_matching(impl, p):
+    return sum(1 for u in impl.U.users.values()
+               if any(o_glob(str(m), p) for m in u.hostmasks) or any(h == p for (t, h) in impl.live_auth(u)))
+
+def run_phistory(impl, r, n, kind, fixed=None):
+    """drive the real User plugin; `fixed` = a given command list (corpus / replay), else `n` generated commands"""
+    cmds = []; outs = []; lines = []; tags = set(); trace = []
+    ok = True; msg = ''
+    def fail(m):
+        nonlocal ok, msg
+        if ok: ok = False; msg = m
+    secrets = {}       # uid -> password given at registration (the harness's own record)
+    glog = set()       # ghost log: (uid, time, hostmask) of identify commands sent with the account's password
+    it = iter(fixed) if fixed is not None else None
+    first = True
+    while True:
+        if it is not None:
+            c = next(it, None)
+            if c is None: break
+            c = tuple(c)
+        else:
+            if len(cmds) > n: break
+            c = ('reset', r.choice([0, 0, 10, 60])) if first else gen_pcmd(r, impl)
+        first = False
+        if c[0] not in ('reset', 'p_tick') and n_matching(impl, c[1]) > 1:
+            # the bot looks the sender up several times around every command (checkIgnored, command
+            # capabilities, reply options); for a sender matching two accounts those lookups already
+            # delete masks.  That behaviour is covered on the dictionary stream; not used here.
+            tags.add('skipped:ambiguous-sender')
+            if it is not None: continue
+            n -= 1
+            if n < 0: break
+            continue
+        cmds.append(c)
+        k = c[0]
+        by_name = None
+        if k == 'reset':
+            impl.reset(c[1]); out = 'ok'; secrets = {}; glog = set()
+        elif k == 'p_tick':
+            impl.clock.now += c[1]; out = 'success'
+        else:
+            before = set(impl.U.users)
+            if k == 'p_identify':
+                by_name = [i for i, u in impl.U.users.items() if u.name.lower() == c[2].lower()]
+            del impl.dup_lookups[:]
+            try:
+                msgs = bot.feed(impl.b, c[1], impl.b.irc.nick, p_text(c))
+                out = classify([m.args[1] for m in msgs if m.command in ('PRIVMSG', 'NOTICE')])
+            except Exception as e:
+                out = 'escaped\t' + type(e).__name__
+            if c[1] in impl.dup_lookups:
+                # the command left its own sender matching two accounts (e.g. identify as X from a host that Y's
+                # mask matches): the bot's lookups of the sender after the command (reply options …) then delete
+                # masks.  The dictionary stream covers that; this history ends before the command.
+                cmds.pop(); tags.add('ended:sender-became-ambiguous')
+                break
+            if k == 'p_register':
+                for i in set(impl.U.users) - before:
+                    secrets[i] = c[3]
+            if k == 'p_identify' and by_name and secrets.get(by_name[0]) == c[3] and '!' not in c[2]:
+                glog.add((by_name[0], impl.clock.now, c[1]))
+            tags.add(k + ':' + out.split('\t')[0])
+        outs.append(out); lines.append(p_wire(c))
+        trace.append('%3d %-100s -> %s' % (len(cmds) - 1, repr(c)[:100], out.replace('\t', ' ')))
+        if k not in ('reset', 'p_tick'):
+            for i, u in impl.U.users.items():
+                cur = [str(x) for x in u.hostmasks]
+                if len(cur) >= 2:
+                    lines.append(wire_line(('order', i, cur))); outs.append('ok')
+        # state, caches and ghost log after every command
+        lines.append('p_dump'); outs.append(impl.dump().split('|HF=')[0] + '|N=%d' % impl.U.nextId)
+        lines.append('p_log'); outs.append(','.join(sorted('%d:%d:%s' % (i, t, wire.enc(h)) for (i, t, h) in glog)) or '-')
+        # ---- the property on the implementation
+        for i, u in impl.U.users.items():
+            for (t, h) in impl.live_auth(u):
+                if (i, t, h) not in glog:
+                    fail('command %d %r: account %d (%s) holds a login (t=%d, %s) that no identify with its password from that hostmask created'
+                         % (len(cmds) - 1, c, i, u.name, t, h))
+                    tags.add('unbacked-login')
+            if u.secure:
+                for (t, h) in impl.live_auth(u):
+                    if k == 'p_identify' and out == 'success' and by_name and by_name[0] == i and h == c[1] and t == impl.clock.now \
+                            and not any(o_glob(str(m), h) for m in u.hostmasks):
+                        fail('command %d %r: the secure account %d (%s) accepted a login from %s, which matches none of its masks'
+                             % (len(cmds) - 1, c, i, u.name, h))
+        if k == 'p_whoami' and out.startswith('iam'):
+            nm = wire.dec(out.split('\t')[1])
+            who = [u for u in impl.U.users.values() if u.name == nm]
+            if who:
+                u = who[0]
+                if not (any(o_glob(str(m), c[1]) for m in u.hostmasks) or any((u.id, t, c[1]) in glog for (t, h) in impl.live_auth(u) if h == c[1])):
+                    fail('command %d: %s is recognised as %s without a matching mask or a password-backed login' % (len(cmds) - 1, c[1], nm))
+    inp = {'pcmds': [list(c) for c in cmds]}
+    if kind == 'replay':
+        inp['trace'] = trace
+    return Case(inp, impl='\n'.join(outs), oracle_ok=ok, oracle_msg=msg, tags=sorted(tags), kind=kind), lines
 
 # ---- glob stream ------------------------------------------------------------------------
 GA = ['*', '?', '*', 'a', 'B', 'c', '!', '@', '.', '[', ']', '{', '}', '\\', '|', '^', '~', '-', '_', '0', 'é', '中', ' ', '\n', '(', ')', '+', '$']
@@ -482,7 +700,7 @@ def valid_unicode(s):
         return False
 
 # =====================================================================================
-def explore(ctx, n_hist, n_hostile, n_over, n_glob, corpus=(), stream='c04'):
+def explore(ctx, n_hist, n_hostile, n_over, n_glob, corpus=(), stream='c04', n_plug=0):
     impl = Impl()
     r = rng.make(stream)
     cases = []; lines = []; spans = []
@@ -498,6 +716,10 @@ def explore(ctx, n_hist, n_hostile, n_over, n_glob, corpus=(), stream='c04'):
         add(*run_history(impl, gen_history(r, hostile=True), 'hostile'))
     for _ in range(n_over):
         add(*run_history(impl, gen_overflow(r), 'overflow'))
+    for fixed in P_CORPUS:
+        add(*run_phistory(impl, r, 0, 'plugin-corpus', fixed=fixed))
+    for _ in range(n_plug):
+        add(*run_phistory(impl, r, r.randint(8, 45), 'plugin'))
     for _ in range(n_glob):
         p, h = gen_glob_pair(r)
         if valid_unicode(p) and valid_unicode(h):
@@ -526,15 +748,15 @@ def finding_status(wit):
 def run(ctx):
     build = leanbuild.ensure(PROPERTY, THEOREMS, thorough=ctx.thorough, extractors=['IrcDbUsers', 'IrcDbCaps'])
     if ctx.thorough:
-        cases, lines, spans, wit = explore(ctx, 40000, 8000, 12, 200000, corpus=load_corpus())
+        cases, lines, spans, wit = explore(ctx, 40000, 8000, 12, 200000, corpus=load_corpus(), n_plug=6000)
     else:
-        cases, lines, spans, wit = explore(ctx, 1800, 500, 1, 30000, corpus=load_corpus())
+        cases, lines, spans, wit = explore(ctx, 1800, 500, 1, 30000, corpus=load_corpus(), n_plug=200)
     if build.driver_ok:
         fill_model(cases, lines, spans)
     def search(disagreements, broken):
         os.environ['VERIF_SEED'] = str(ctx.seed + 7919)
         try:
-            more, _, _, _ = explore(ctx, 6000, 1500, 3, 60000, stream='c04-search')
+            more, _, _, _ = explore(ctx, 6000, 1500, 3, 60000, stream='c04-search', n_plug=1500)
         finally:
             os.environ['VERIF_SEED'] = str(ctx.seed)
         return [c for c in more if c.oracle_ok is False and c.finding is None]
@@ -554,6 +776,12 @@ def replay(ctx, path):
     if inp.get('op') == 'glob':
         c2, _ = glob_case(impl, inp['p'], inp['h'])
         print('pattern %r hostmask %r -> %s' % (inp['p'], inp['h'], c2.impl.split('\n')[0])); print('oracle:', c2.oracle_ok, c2.oracle_msg)
+        return 0 if c2.oracle_ok else 1
+    if 'pcmds' in inp:
+        c2, _ = run_phistory(impl, rng.make('replay'), 0, 'replay', fixed=inp['pcmds'])
+        for l in c2.input['trace']:
+            print(l)
+        print('property oracle on the implementation:', 'holds' if c2.oracle_ok else 'FAILS: ' + c2.oracle_msg)
         return 0 if c2.oracle_ok else 1
     ops = [tuple(o) for o in inp['ops']]
     c2, _ = run_history(impl, ops, 'replay')
